@@ -49,3 +49,12 @@ From VV Require Import Gen.GenBeAck.
 Theorem C03_backend_ack_value_regenerated : forall ok, (ack_value ok =? 0) = ok.
 Proof. exact ack_value_spec. Qed.
 Print Assumptions C03_backend_ack_value_regenerated.
+
+(* ---- the frontend side of an acknowledgement, REGENERATED from frontend.rs (Gen/GenFeRecv.v): it is awaited exactly
+   when REPLY_ACK is negotiated and the request asks for it, and it is a success exactly for the value 0 ---- *)
+From VV Require Import Gen.GenFeRecv Proofs.FeRecvProofs.
+Theorem C03_ack_awaited_and_judged_regenerated :
+  (forall apf nr, fra_d1 apf nr = false <-> N.land apf VhostUserProtocolFeatures_REPLY_ACK <> 0 /\ nr = true)
+  /\ (forall v, fra_d3 v = false <-> v = 0).
+Proof. split; [exact fra_d1_spec|exact fra_d3_spec]. Qed.
+Print Assumptions C03_ack_awaited_and_judged_regenerated.
